@@ -377,9 +377,31 @@ def parallel_precheck(obls, nproc):
     return done
 
 
-def verify_function(key, prop_prefix="", replayer=None, only_labels=None, engine_cls=None) -> list[Result]:
+def verify_function(key, prop_prefix="", replayer=None, only_labels=None, engine_cls=None, _variant=None) -> list[Result]:
     """Verify one repo function against its sidecar contract."""
     c = S.CONTRACTS[key]
+    variants = getattr(c, "variants", None)
+    if variants and _variant is None:
+        # a parameter of a union type: the function is verified once per alternative
+        import copy
+        from .types import parse_ty
+        allres, lastE = [], None
+        for var in variants:
+            tag = ",".join("%s:%s" % kv for kv in var.items())
+            c2 = copy.copy(c)
+            c2.params = dict(c.params)
+            for pn, pt in var.items():
+                c2.params[pn] = parse_ty(pt)
+            c2.variants = None
+            S.CONTRACTS[key] = c2
+            try:
+                res, lastE = verify_function(key, prop_prefix, replayer, only_labels, engine_cls, _variant=tag)
+            finally:
+                S.CONTRACTS[key] = c
+            for r in res:
+                r.oid = "%s[%s]" % (r.oid, tag)
+            allres.extend(res)
+        return allres, lastE
     short = key.split(":")[1]
     results = []
     t_start = time.time()
